@@ -534,24 +534,41 @@ class CeiloChunk(AbstractChunk):
         for ind, cid in enumerate(cluster_ids):
             # Which hits are in this sli/gro/lay ?
             in_sligrolay = self.data[which[:-1]+'_id'] == cid
-            if self.prms['EXCLUDE_FOR_BASE_HEIGHT_CALC'] != []:
-                in_sligrolay_filtered = in_sligrolay * self.data['ceilo'].apply(
-                    lambda x: x not in self.prms['EXCLUDE_FOR_BASE_HEIGHT_CALC']
-                )
-                # We require a minimum of hits by the filtered ceilos that belong to the layer
-                # of interest. Otherwise fall back to using all ceilos for the calculation.
-                if in_sligrolay_filtered.sum() > self.prms['MAX_HITS_OKTA0']:
-                    in_sligrolay = in_sligrolay_filtered
-                else:
-                    warnings.warn(
-                        'Not enough data after filtering to calculate cloud base height, '
-                        f'will fall back to use all data in group/ slice/ layer {cid}',
-                        AmpycloudWarning
-                    )
             # Compute the base height
             pdf.iloc[ind, pdf.columns.get_loc('height_base')] = \
-                self._calculate_base_height_for_selection(in_sligrolay)
+                self._calculate_base_height_for_selection(
+                    self._exclude_for_base_height_calc(in_sligrolay, cid))
         return pdf
+
+    def _exclude_for_base_height_calc(self, in_sligrolay, cid):
+        """Remove the hits of the ceilometers listed in EXCLUDE_FOR_BASE_HEIGHT_CALC from a selection
+        of hits, unless too few hits would remain.
+
+        Args:
+            in_sligrolay (pd.Series(dtype=bool)): the hits of a given slice/ group/ layer.
+            cid (int): the id of this slice/ group/ layer (for reporting purposes).
+
+        Returns:
+            pd.Series(dtype=bool): the hits to use to compute the base height.
+
+        """
+        if self.prms['EXCLUDE_FOR_BASE_HEIGHT_CALC'] == []:
+            return in_sligrolay
+
+        in_sligrolay_filtered = in_sligrolay * self.data['ceilo'].apply(
+            lambda x: x not in self.prms['EXCLUDE_FOR_BASE_HEIGHT_CALC']
+        )
+        # We require a minimum of hits by the filtered ceilos that belong to the layer
+        # of interest. Otherwise fall back to using all ceilos for the calculation.
+        if in_sligrolay_filtered.sum() > self.prms['MAX_HITS_OKTA0']:
+            return in_sligrolay_filtered
+
+        warnings.warn(
+            'Not enough data after filtering to calculate cloud base height, '
+            f'will fall back to use all data in group/ slice/ layer {cid}',
+            AmpycloudWarning
+        )
+        return in_sligrolay
 
     @log_func_call(logger)
     def metarize(self, which: str = 'slices') -> None:
@@ -746,10 +763,14 @@ class CeiloChunk(AbstractChunk):
             # resetting because we must not have index gaps in the next iteration
             prelim_groups.reset_index(drop=True, inplace=True)
             # now we recalculate the base height for the merged supergroup
+            # (with the same ceilometer exclusions as for any other base height, so that the groups
+            # reported by metarize() are the ones that were compared here)
             data_idxer = self.data['group_id'] == prelim_groups['cluster_id'].iloc[idx - 1]
             prelim_groups.iloc[
                 idx - 1, prelim_groups.columns.get_loc('height_base')
-            ] = self._calculate_base_height_for_selection(data_idxer)
+            ] = self._calculate_base_height_for_selection(
+                self._exclude_for_base_height_calc(
+                    data_idxer, prelim_groups['cluster_id'].iloc[idx - 1]))
             # as this changes base height, it is possible that we now are closer
             # to another group, so we have to continue iteratively.
             min_seps_grp = prelim_groups['height_base'].apply(self._get_min_sep_for_height)
